@@ -26,7 +26,7 @@ func init() {
 			"(R3) the side effects outside the transaction reachable from the handlers are exactly the allow-listed ones, and the wallet ones are idempotent by shape: in ekm.AddShare all writes are under acc==nil and the account (the idempotence marker) is saved after the slashing-protection records; in RemoveShare the deletions are under acc!=nil; " +
 			"(R4) resume point: the block handed to SyncHistory is lastProcessed+1 (or the configured offset when nothing was processed) and SyncOngoing continues at SyncHistory's result+1.",
 		Rules: []string{
-			"C12-R1 provenance(arg of every basedb.ReadWriter parameter in eth/eventhandler) ∈ {own txn parameter, Begin()}",
+			"C12-R1 provenance(arg of every basedb.ReadWriter parameter in eth/eventhandler) ∈ {own txn parameter, Begin()}; no access bypasses a given handle; badgerTxn methods open no transaction of their own",
 			"C12-R2 Ens(processBlockEvents|ok) ⊇ ordered commit protocol; facts-before(Commit) ∋ marker saved",
 			"C12-R3 out-of-transaction effects ⊆ allow-list; idempotence shapes of ekm.AddShare/RemoveShare",
 			"C12-R4 stores to the resume cursor ∈ {last+1, offset, synced+1}",
